@@ -177,7 +177,38 @@ def formatter_write_char(m, f, c):
     return OK(UNIT)
 
 
-M["Formatter::alternate"] = M["core::fmt::Formatter::alternate"] = lambda m, f: deref(f).alternate
+def _debug_opaque(m, f, name, *rest):
+    """derived Debug impls: only the type name is written (Debug text is used for error messages only; a check that
+    depended on it would see the marker and could not confirm natively)"""
+    deref(f).buf.append(m.str_concrete(name) + "{..}")
+    m.world.count("debug_opaque")
+    return OK(UNIT)
+
+
+for _n in range(1, 9):
+    M[f"Formatter::debug_struct_field{_n}_finish"] = M[f"core::fmt::Formatter::debug_struct_field{_n}_finish"] = _debug_opaque
+    M[f"Formatter::debug_tuple_field{_n}_finish"] = M[f"core::fmt::Formatter::debug_tuple_field{_n}_finish"] = _debug_opaque
+M["Formatter::debug_struct_fields_finish"] = M["Formatter::debug_tuple_fields_finish"] = _debug_opaque
+
+
+class _DebugBuilder:
+    __slots__ = ("f",)
+    def __init__(self, f): self.f = f
+
+
+def _debug_builder(m, f, name=None, *rest):
+    if name is not None: deref(f).buf.append(m.str_concrete(name) + "{..}")
+    return Agg("DebugBuilder", None, [deref(f)])
+
+
+for _n in ("debug_struct", "debug_tuple", "debug_list", "debug_set", "debug_map"):
+    M[f"Formatter::{_n}"] = M[f"core::fmt::Formatter::{_n}"] = _debug_builder
+for _t in ("DebugStruct", "DebugTuple", "DebugList", "DebugSet", "DebugMap"):
+    for _mth in ("field", "entry", "entries", "key", "value", "field_with"):
+        M[f"{_t}::{_mth}"] = M[f"core::fmt::builders::{_t}::{_mth}"] = lambda m, b, *a: b
+    for _mth in ("finish", "finish_non_exhaustive"):
+        M[f"{_t}::{_mth}"] = M[f"core::fmt::builders::{_t}::{_mth}"] = lambda m, b, *a: OK(UNIT)
+M["Formatter::alternate"] =M["core::fmt::Formatter::alternate"] = lambda m, f: deref(f).alternate
 
 
 def write_target(m, w):
